@@ -92,6 +92,13 @@ class Observer:
 PREFIX_BOX = [-1.0, 3.0]
 
 
+def plain(r):
+    """the reward as the observers book it: a NumPy integer scalar (which the code under test receives as such) is read as the
+    Python int it stands for, so that the reference statistics are computed in unbounded arithmetic"""
+    import numpy as _np
+    return int(r) if isinstance(r, _np.integer) else r
+
+
 def prefix_reward(cfg, p, t, visits=None):
     """Mode B: concrete reward of round t of the prefix - an objective-like function of the (concrete)
     point plus deterministic dyadic pseudo-noise, so that the tree grows the way it does in real use"""
@@ -110,12 +117,17 @@ def prefix_reward(cfg, p, t, visits=None):
     if spec.get("pattern") == "rising":
         # every evaluation beats all earlier ones: optimistic searches descend one path (deep trees after few rounds)
         return t * 8.0 - (1000.0 if spec.get("negative") else 0.0)
-    lo, hi = PREFIX_BOX
+    lo, hi = spec.get("box") or PREFIX_BOX
     u = (x - lo) / (hi - lo)
     peak = spec.get("peak", 0.3)
     base = 1.0 - abs(u - peak)
     noise = (((t * 37 + int(spec.get("seed", 0)) * 11) % 64) - 32) / 64.0 * spec.get("noise", 0.25)
     r = base + noise
+    if spec.get("pattern") == "np_uint8":
+        # rewards read from an image / a counter: NumPy small-integer scalars 0..255 (a running total kept in the reward's own
+        # dtype wraps after two or three of them; seed S-C04-10)
+        import numpy as _np
+        return _np.uint8(int(max(0.0, min(1.0, 0.5 + 0.8 * (r - 0.6))) * 255))
     if spec.get("pattern") == "clip_int":
         # rewards clipped to [0, 1] the way a user would write it - min(1, max(0, y)) - so that the clipped ones are the Python
         # ints 0 and 1 and the others floats: 'any finite reward' includes integer-typed ones (seed S-C04-7)
@@ -133,6 +145,8 @@ def initial_domain(ctx, cfg):
     pre = cfg.get("prefix")
     if pre:
         shims.rng_concrete(pre.get("seed", 0) + 1000)
+        if pre.get("box"):  # a concrete box of the configuration's own (e.g. one that holds only a handful of doubles)
+            return [[float(pre["box"][0]), float(pre["box"][1])] for _ in range(cfg["d"])]
         if pre.get("intbox"):  # the bounds as Python ints, the way most users write a domain
             return [[int(PREFIX_BOX[0]), int(PREFIX_BOX[1])] for _ in range(cfg["d"])]
         return [[PREFIX_BOX[0], PREFIX_BOX[1]] for _ in range(cfg["d"])]
@@ -167,10 +181,10 @@ def drive(ctx, cfg, observers=(), dom=None, algo=None, T=None, last_point=True, 
             r = prefix_reward(cfg, p, k, _visits)
         else:
             r = rewards[k - 1] if rewards is not None else ctx.real("r%d" % k)
-        rs.append(r)
+        rs.append(plain(r))
         ctx.call("receive_reward", algo.receive_reward, t, r)
         for ob in observers:
-            ob.after_reward(k, r)
+            ob.after_reward(k, plain(r))
     if pre:
         shims.rng_fresh()
     lp = None
